@@ -686,6 +686,44 @@ def _truthy(x):
     return bool(x)
 
 
+def redistributed(ct, cv, mode="setx"):
+    """a value of the same type and the same planned size whose dynamic parts have other sizes, or None.
+    Plain data ('setr') only for arrays of dynamic items (the array re-plans its items inside its fixed size);
+    a struct given plain data updates field by field, where every nested part keeps its own fixed size, so a
+    redistribution among struct fields is only a fitting value as an xobject of the struct type ('setx')."""
+    if ct[0] == "array" and V.static_size_of(ct[1]) is None:
+        dims = V.dims_of(ct, cv)
+        if dims and dims[0] >= 2:
+            nv = list(reversed(cv))
+            if nv != list(cv):
+                return nv if same_plan(ct, cv, nv) else None
+        return None
+    if mode == "setx" and tg.has_ref(ct) and ct[0] in ("struct", "array"):
+        # reference-bearing compound: another value of the type (other referents), same planned size
+        g = V.Gen(0, 2)
+        g.c = itertools.count(41)
+        nv = g.sample(ct)
+        if ct[0] == "array" and V.dims_of(ct, nv) != V.dims_of(ct, cv):
+            return None
+        return nv if same_plan(ct, cv, nv) and not V.same(V.expected(ct, nv), V.expected(ct, cv)) else None
+    if ct[0] == "struct" and mode == "setx":
+        dyn = [(fn, ft) for fn, ft in ct[2] if V.static_size_of(ft) is None]
+        for (f1, t1), (f2, t2) in itertools.combinations(dyn, 2):
+            if t1 == t2 and cv[f1] != cv[f2]:
+                nv = dict(cv)
+                nv[f1], nv[f2] = cv[f2], cv[f1]
+                return nv if same_plan(ct, cv, nv) else None
+    return None
+
+
+def same_plan(ct, a, b):
+    try:
+        c = tg.build(ct)
+        return c._inspect_args(a).size == c._inspect_args(b).size
+    except Exception:
+        return False
+
+
 def sc_c10(env, t, v, cfg):
     """history = cfg['history']: list of ('set', leaf#, via) | ('setc', compound#, via) | ('grow',)"""
     B = construct(env, t, v, cfg)
@@ -717,6 +755,42 @@ def sc_c10(env, t, v, cfg):
                 break
             exp = V.replace_at(t, exp, path, V.expected(lt, nv))
             what = f"C10 step {stepno}: set leaf {path}"
+        elif st[0] in ("setr", "setx"):
+            # whole compound replaced by a value of the SAME total size whose parts are distributed differently:
+            # 'setr' plain data, 'setx' another xobject of the type (living in the same buffer)
+            pool = [(p, ct, cv, redistributed(ct, cv, st[0])) for p, ct, cv in V.compounds(t, v) if V.type_at(t, v, p)[0][0] not in ("ref", "uref") or not p]
+            pool = [q for q in pool if q[3] is not None and not behind_ref(t, v, q[0]) and (st[0] == "setx" or not tg.has_ref(q[1]))]
+            if not pool:
+                continue
+            path, ct, cv, nv = pool[st[1] % len(pool)]
+            value = nv
+            try:
+                if st[0] == "setx":
+                    value = tg.build(ct)(nv, _buffer=obj._buffer)
+                if path:
+                    V.set_at(t, via, path, value)
+                else:
+                    via._update(value)
+            except BaseException as ex:
+                if not isinstance(ex, Exception):
+                    raise
+                # the parts of an object keep the place and space fixed at creation, so a library may refuse a
+                # value whose parts are sized differently (C11) -- but then nothing may have changed
+                what = f"C10 step {stepno}: an equal-size value with differently sized parts for {path or 'root'} was refused ({type(ex).__name__})"
+                read_ok(env, t, obj, exp, what + " -- the object keeps its value (constructor handle)")
+                if t[0] != "uref":
+                    read_ok(env, t, cls._from_buffer(obj._buffer, obj._offset), exp, what + " -- the object keeps its value (fresh view)")
+                neighbours_intact(env, B, "by the refused assignment")
+                continue
+            exp = V.replace_at(t, exp, path, V.expected(ct, nv)) if path else V.expected(ct, nv)
+            what = f"C10 step {stepno}: set whole compound {path or 'root'} to an equal-size {'xobject' if st[0] == 'setx' else 'value'} with differently sized parts"
+            read_ok(env, t, obj, exp, what + " -- read through the constructor handle")
+            if t[0] != "uref":
+                read_ok(env, t, cls._from_buffer(obj._buffer, obj._offset), exp, what + " -- read through a fresh view")
+            neighbours_intact(env, B, "by that assignment")
+            if tg.has_ref(ct) or True:
+                sig0 = struct_sig(env, t, v, obj)  # part offsets legitimately move; sizes of the whole are checked by read-back
+            continue
         elif st[0] == "setc":
             if not comps:
                 continue
